@@ -31,6 +31,37 @@ def main():
         return objs
 
     out = {}
+    if job.get("mode") == "names-sweep":
+        # several requests in one process: [{"targets": [...], "options": {...}, "jit": {...}}, ...] -> names and source digests
+        import hashlib
+        import re
+
+        import ffcx.codegeneration.jit as J
+        import ffcx.naming
+
+        res = []
+        for req in job["requests"]:
+            r = {}
+            try:
+                objs = build_all(req["targets"])
+                o = ffcx.options.get_options(dict(req.get("options") or {}))
+                jit = req.get("jit") or {}
+                sig = J._compute_option_signature(o) + J._compilation_signature(list(jit.get("cflags", [])), bool(jit.get("debug", False)))
+                if isinstance(objs[0], tuple):
+                    module_name = "libffcx_expressions_" + ffcx.naming.compute_signature(objs, sig)
+                    names = [ffcx.naming.expression_name(e, module_name) for e in objs]
+                else:
+                    module_name = "libffcx_forms_" + ffcx.naming.compute_signature(objs, sig)
+                    names = [ffcx.naming.form_name(f, i, module_name) for i, f in enumerate(objs)]
+                code, _ = ffcx.compiler.compile_ufl_objects(objs, options=o, namespace=module_name)
+                norm = [re.sub(r"[0-9a-f]{40}", "H", c) for c in code]
+                r = {"module_name": module_name, "object_names": names, "source_digest": hashlib.sha1("\0".join(norm).encode()).hexdigest()}
+            except BaseException as e:  # noqa: BLE001 - UFL's ArityMismatch derives from BaseException
+                r = {"error": f"{type(e).__name__}: {e}"[:300]}
+            res.append(r)
+        out["results"] = res
+        open(sys.argv[2], "w").write(json.dumps(out))
+        return
     target_objs = None
     if job.get("family", "first") == "first":
         target_objs = build_all(job["target"])
